@@ -16,7 +16,7 @@ import (
 type Tx struct {
 	Signer   string            `json:"signer"`
 	Msgs     []json.RawMessage `json:"msgs"`
-	Route    string            `json:"route,omitempty"` // "" = signed tx through DeliverTx; "direct" = message router on cached ctx
+	Route    string            `json:"route,omitempty"` // "" = signed tx through DeliverTx; "direct" = message router on cached ctx; "srv" = the module's message server itself; "sim" = handed to the Simulate service only; "atomic" = all messages through the router on one cached context, written only if all succeed (x/gov proposal semantics); "sig" = cfesignature message server
 	Fee      string            `json:"fee,omitempty"`
 	Gas      uint64            `json:"gas,omitempty"`
 	SeqDelta int64             `json:"seq_delta,omitempty"`
@@ -93,6 +93,7 @@ type TxResult struct {
 	Data      []byte
 	Panic     *PanicInfo // panic that escaped (direct route) or was converted by baseapp (ErrPanic)
 	BuildErr  string
+	Simulated bool // route "sim": executed by the Simulate service only, never delivered
 }
 
 // Source yields blocks and transactions: a generator (records what it produced) or a recorded trace.
@@ -181,6 +182,8 @@ type deliveredTx struct {
 	raw    []byte
 	direct sdk.Msg
 	sig    sdk.Msg
+	srv    sdk.Msg
+	atomic []sdk.Msg
 }
 
 func (r *Run) Violate(property, check, signature, format string, args ...interface{}) {
@@ -459,6 +462,10 @@ func (r *Run) crashAndRecover(b *Block) {
 	for _, bz := range txs {
 		if bz.sig != nil {
 			nc.DirectSig(bz.sig)
+		} else if bz.atomic != nil {
+			nc.DirectAtomic(bz.atomic)
+		} else if bz.srv != nil {
+			nc.DirectSrv(bz.srv)
 		} else if bz.direct != nil {
 			nc.Direct(bz.direct)
 		} else {
